@@ -19,8 +19,9 @@ class Unsupported(Exception):
 
 
 class LD:
-    """symbolic longdouble: value = M * 2^(e - P + 1), integer mantissa M (2^(P-1) <= M <= 2^P), concrete binade e"""
-    def __init__(self, M, e): self.M, self.e = M, e
+    """symbolic binary float: value = M * 2^(e - p + 1), integer mantissa M (2^(p-1) <= M <= 2^p), concrete binade e; p = 64 for
+    numpy.longdouble (x87), 53 for Python floats / float64"""
+    def __init__(self, M, e, p=P): self.M, self.e, self.p = M, e, p
 
 
 class LDC:
@@ -91,6 +92,22 @@ class Ctx:
         r = LD(M, e); r.lo, r.hi = Fraction(lo) / S.fr, Fraction(hi) / S.fr
         return r
 
+    def div_int_int(self, a, b):
+        """Python `a / b` on ints: the correctly rounded float64 quotient (CPython long_true_divide), b a positive constant"""
+        if z3.is_int_value(b) if not isinstance(b, int) else True: bv = b if isinstance(b, int) else b.as_long()
+        else: raise Unsupported('true division by a non-constant')
+        if bv <= 0: raise Unsupported('true division by a non-positive constant')
+        if isinstance(a, int): return LDC(_rne_const(Fraction(a, bv), 53)) if a > 0 else (LDC(0) if a == 0 else _unsup('negative true division'))
+        lo, hi = self.bounds(a)
+        if lo < 0: raise Unsupported('true division of a possibly negative value')
+        dom = (['zero'] if lo == 0 else []) + fprne.binades(Fraction(max(lo, 1), bv), Fraction(max(hi, 1), bv))
+        e = self.ch.choose(dom)
+        if e == 'zero':
+            self.cons.append(a == 0); return LDC(0)
+        M = self.fresh('Mf')
+        self.cons += fprne.rne_constraints(a, z3.IntVal(bv), e, 53, M)
+        return LD(M, e, 53)
+
     def mul_ld_int(self, x, c):
         """RNE_P(x * c) for LD x and positive integer constant c"""
         if not isinstance(c, int) or c < 1: raise Unsupported('longdouble * non-constant')
@@ -100,14 +117,15 @@ class Ctx:
         e2 = self.ch.choose([b0, b0 + 1])
         M2 = self.fresh('Mp')
         # A/B with A = c*M, B = 2^(P-1-x.e) (or scaled if negative)
-        sh = (P - 1) - x.e
+        if x.p == 53 and c >= 2**53: raise Unsupported('float * int >= 2^53')
+        sh = (x.p - 1) - x.e
         if sh >= 0: A, B = c * x.M, z3.IntVal(2**sh)
         else: A, B = c * x.M * (2**(-sh)), z3.IntVal(1)
-        self.cons += fprne.rne_constraints(A, B, e2, P, M2)
-        return LD(M2, e2)
+        self.cons += fprne.rne_constraints(A, B, e2, x.p, M2)
+        return LD(M2, e2, x.p)
 
     def trunc(self, x):
-        if isinstance(x, LD): return fprne.value_floor(x.M, x.e, P)
+        if isinstance(x, LD): return fprne.value_floor(x.M, x.e, x.p)
         if isinstance(x, LDC): return z3.IntVal(int(x.fr))
         return x
 
@@ -141,7 +159,7 @@ def ev(node, cx):
         if isinstance(b, tuple): b = b[1]
         if op is ast.Div:
             if isint(a) and isinstance(b, LDC): return cx.div_int_ldc(a, b)
-            if isint(a) and isinstance(b, int) and False: pass
+            if isint(a) and isint(b): return cx.div_int_int(a, b)
             raise Unsupported('true division %s' % ast.unparse(node))
         if op is ast.Mult:
             if isinstance(a, LD) and isinstance(b, int): return cx.mul_ld_int(a, b)
@@ -164,7 +182,11 @@ def ev(node, cx):
     raise Unsupported('expression %s' % ast.unparse(node))
 
 
-def _rne_const(fr):
+def _unsup(msg):
+    raise Unsupported(msg)
+
+
+def _rne_const(fr, P=P):
     """round a positive Fraction to P significant bits, nearest-even (concrete)"""
     import math
     if fr == 0: return Fraction(0)
